@@ -4,6 +4,6 @@ From Coq Require Import List String ZArith Bool.
 From NL Require Import Life.RecordSyntax Life.RecordInterp Gen.RunRecord Life.RecordRun.
 Import ListNotations.
 
-Lemma good_A : forall ret code look no script prev o,
-  good_run (mkRun (ChReturned ret None) code look no script prev) (FS.trace o).
-Proof. intros ret code look no script prev. all_traces_good code look script. Qed.
+Lemma good_A : forall ret code look no script prev ran o,
+  good_run (mkRun (ChReturned ret None) code look no script prev ran) (FS.trace o).
+Proof. intros ret code look no script prev ran. all_traces_good code look script ran. Qed.
